@@ -1523,10 +1523,18 @@ func (c *control) dirCond(colon, at bool, params []any) {
 		}
 	default:
 		if n < 0 {
-			if no, ok := arg.(slip.Fixnum); ok {
+			switch no := arg.(type) {
+			case slip.Fixnum:
 				n = int(no)
-			} else {
-				slip.TypePanic(c.scope, 0, "conditional directive argument", arg, "fixnum")
+			case slip.Octet:
+				n = int(no)
+			case *slip.Bignum:
+				n = math.MaxInt // beyond every clause, as any other integer that selects none
+				if (*big.Int)(no).Sign() < 0 {
+					n = -1
+				}
+			default:
+				slip.TypePanic(c.scope, 0, "conditional directive argument", arg, "integer")
 			}
 		}
 		if 0 <= n && n < len(strs) {
